@@ -8,6 +8,31 @@ Proof. apply (list_eqb_spec String.eqb); [intros; apply String.eqb_eq | reflexiv
 Lemma strs_eqb_eq a b : strs_eqb a b = true -> a = b.
 Proof. apply (list_eqb_spec String.eqb). intros; apply String.eqb_eq. Qed.
 
+Lemma string_in_In x l : string_in x l = true <-> In x l.
+Proof.
+  unfold string_in. rewrite existsb_exists. split.
+  - intros [y [H1 H2]]. apply String.eqb_eq in H2. now subst.
+  - intro H. exists x. split; [exact H | apply String.eqb_refl].
+Qed.
+
+Lemma scopes_within_incl a b : scopes_within a b = true <-> (forall s, In s a -> In s b).
+Proof.
+  unfold scopes_within. rewrite forallb_forall. split; intros H s Hs.
+  - apply string_in_In. now apply H.
+  - apply string_in_In. now apply H.
+Qed.
+
+(* the spec's scope comparison decides equality as sets *)
+Lemma same_scopes_iff a b : same_scopes a b = true <-> (forall s, In s a <-> In s b).
+Proof.
+  unfold same_scopes. rewrite andb_true_iff, !scopes_within_incl. split.
+  - intros [H1 H2] s. split; [apply H1 | apply H2].
+  - intro H. split; intros s; apply H.
+Qed.
+
+Lemma same_scopes_refl a : same_scopes a a = true.
+Proof. apply same_scopes_iff. reflexivity. Qed.
+
 Lemma find_client_some cl id c : find_client cl id = Some c -> In c cl /\ c_id c = id.
 Proof.
   unfold find_client. intro H. apply find_some in H as [H1 H2]. split; [exact H1|].
@@ -171,13 +196,14 @@ Proof.
 Qed.
 
 (* a token answer, taken apart *)
-Lemma poll_tokens_inv cl st r cr dc now f sub client scopes idsub rf :
-  poll cl st r cr dc now f = RTokens sub client scopes idsub rf ->
+Lemma poll_tokens_inv g cl st r cr dc now f host fwd t :
+  poll g cl st r cr dc now f host fwd = RTokens t ->
   exists d c,
     find_dev st dc = Some d /\ find_client cl (claimed cr) = Some c /\
-    d_client d = claimed cr /\ client = claimed cr /\
-    d_done d = true /\ d_denied d = false /\ sub = d_subject d /\ scopes = d_scopes d /\
-    f = FNone /\ (idsub = None \/ idsub = Some sub) /\
+    d_client d = claimed cr /\
+    d_done d = true /\ d_denied d = false /\
+    f = FNone /\
+    RTokens t = tokens_for (request_issuer g host fwd) c d /\
     proves_identity c cr = true.
 Proof.
   unfold poll. destruct r.
@@ -187,31 +213,29 @@ Proof.
     destruct (find_client cl (claimed cr)) as [c|] eqn:Hf; [|discriminate].
     destruct (prov_authenticated c a) eqn:Ha; [|discriminate].
     destruct (check_state_ok _ _ _ _ _ _ Hc) as [Hfn [Hfd [Hcl [Hden Hdone]]]].
-    unfold tokens_for. inversion 1; subst. exists d, c.
-    repeat split; try assumption; try reflexivity.
-    + destruct (string_in "openid" (d_scopes d)); [now right | now left].
-    + eapply prov_client_proves; eauto.
+    intro H. exists d, c.
+    repeat split; try assumption; try reflexivity; [now symmetry|].
+    eapply prov_client_proves; eauto.
   - destruct (legacy_client cl cr) as [c|e] eqn:Hl; [|discriminate].
     destruct (negb (c_dev c)); [discriminate|].
     destruct (String.eqb dc ""); [discriminate|].
     destruct (legacy_client_claimed _ _ _ Hl) as [Hf Hid].
     destruct (check_state st (c_id c) dc now f) as [d|e] eqn:Hc; [|discriminate].
     destruct (check_state_ok _ _ _ _ _ _ Hc) as [Hfn [Hfd [Hcl [Hden Hdone]]]].
-    unfold tokens_for. inversion 1; subst. exists d, c. rewrite Hid in *.
-    repeat split; try assumption; try reflexivity.
-    + destruct (string_in "openid" (d_scopes d)); [now right | now left].
-    + eapply legacy_client_proves; eauto.
+    intro H. exists d, c. rewrite Hid in *.
+    repeat split; try assumption; try reflexivity; [now symmetry|].
+    eapply legacy_client_proves; eauto.
 Qed.
 
 (* a canonical poll by a registered device client: refusals come from the
    state check only, on both routers *)
-Lemma poll_canonical cl st r cr dc now f c :
+Lemma poll_canonical g cl st r cr dc now f host fwd c :
   find_client cl (claimed cr) = Some c -> canonical c cr = true -> c_dev c = true ->
   client_ok c = true -> dc <> "" ->
-  poll cl st r cr dc now f =
+  poll g cl st r cr dc now f host fwd =
     match check_state st (c_id c) dc now f with
     | inr e => RErr e
-    | inl d => tokens_for c d
+    | inl d => tokens_for (request_issuer g host fwd) c d
     end.
 Proof.
   intros Hf Hc Hdev Hok Hdc. unfold poll. destruct r.
@@ -282,35 +306,38 @@ Proof.
     apply Hc. now destruct (legacy_client_claimed _ _ _ Hl).
 Qed.
 
-Lemma poll_sound g cl st r cr dc now f :
-  forallb client_ok cl = true ->
-  step_ok g cl st (OpPoll r cr dc now f) (poll cl st r cr dc now f) = true.
+Lemma poll_no_other g cl st r cr dc now f host fwd x :
+  poll g cl st r cr dc now f host fwd = x ->
+  match x with RTokens _ | RErr _ => True | _ => False end.
 Proof.
-  intro Hcl. destruct (poll cl st r cr dc now f) as [| sub client scopes idsub rf | code | | |] eqn:Hp.
-  - exfalso. unfold poll, tokens_for in Hp.
+  intro Hp. unfold poll, tokens_for in Hp.
+  destruct x; try exact I; exfalso;
     destruct r; repeat (match type of Hp with context [match ?x with _ => _ end] => destruct x end; try discriminate).
+Qed.
+
+Lemma poll_sound g cl st r cr dc now f host fwd :
+  forallb client_ok cl = true ->
+  step_ok g cl st (OpPoll r cr dc now f host fwd) (poll g cl st r cr dc now f host fwd) = true.
+Proof.
+  intro Hcl. pose proof (poll_no_other g cl st r cr dc now f host fwd _ eq_refl) as Hno.
+  destruct (poll g cl st r cr dc now f host fwd) as [| t | code | | |] eqn:Hp; try contradiction.
   - cbn [step_ok]. unfold tokens_justified.
-    destruct (poll_tokens_inv _ _ _ _ _ _ _ _ _ _ _ _ Hp)
-      as [d [c [Hfd [Hfc [Hcl' [-> [Hdone [Hden [-> [-> [-> [Hid Hpr]]]]]]]]]]]].
-    rewrite Hfd, Hfc, Hcl', !String.eqb_refl, Hdone, Hden, strs_eqb_refl.
-    rewrite Hpr.
-    destruct Hid as [->| ->]; [reflexivity | now rewrite String.eqb_refl].
+    destruct (poll_tokens_inv _ _ _ _ _ _ _ _ _ _ _ Hp)
+      as [d [c [Hfd [Hfc [Hcl' [Hdone [Hden [-> [Ht Hpr]]]]]]]]].
+    unfold tokens_for in Ht. inversion Ht; subst t. cbn [t_sub t_client t_scopes t_granted t_id t_at_iss].
+    rewrite Hfd, Hfc, Hcl', !String.eqb_refl, Hdone, Hden, !same_scopes_refl, Hpr.
+    unfold expected_issuer. cbn [andb negb].
+    destruct (string_in "openid" (d_scopes d)); destruct (c_jwt c); now rewrite ?String.eqb_refl.
   - cbn [step_ok]. unfold refusal_ok.
     destruct (find_client cl (claimed cr)) as [c|] eqn:Hfc; [|reflexivity].
     destruct (canonical c cr) eqn:Hcan; [|reflexivity].
     destruct (c_dev c) eqn:Hdev; [|reflexivity].
     destruct (String.eqb_spec dc "") as [|Hdc]; [reflexivity|]. cbn [andb negb].
     assert (Hok : client_ok c = true) by (eapply clients_ok_in; eauto; now apply find_client_some in Hfc).
-    rewrite (poll_canonical _ _ _ _ _ _ _ _ Hfc Hcan Hdev Hok Hdc) in Hp.
+    rewrite (poll_canonical g _ _ _ _ _ _ _ host fwd _ Hfc Hcan Hdev Hok Hdc) in Hp.
     destruct (check_state st (c_id c) dc now f) as [d|e] eqn:Hcs.
     + unfold tokens_for in Hp. discriminate.
     + inversion Hp; subst. now apply check_state_refusal.
-  - exfalso. unfold poll, tokens_for in Hp.
-    destruct r; repeat (match type of Hp with context [match ?x with _ => _ end] => destruct x end; try discriminate).
-  - exfalso. unfold poll, tokens_for in Hp.
-    destruct r; repeat (match type of Hp with context [match ?x with _ => _ end] => destruct x end; try discriminate).
-  - exfalso. unfold poll, tokens_for in Hp.
-    destruct r; repeat (match type of Hp with context [match ?x with _ => _ end] => destruct x end; try discriminate).
 Qed.
 
 Lemma step_sound g cl st o :
@@ -318,12 +345,12 @@ Lemma step_sound g cl st o :
   step_ok g cl st o (snd (step g cl st o)) = true /\
   gt_next st o (snd (step g cl st o)) = fst (step g cl st o).
 Proof.
-  intros Hcl Hpf Hop. destruct o as [r cr scopes now life rnd host fwd | uc sub | uc | r cr dc now f]; cbn [step].
+  intros Hcl Hpf Hop. destruct o as [r cr scopes now life rnd host fwd | uc sub | uc | r cr dc now f host' fwd']; cbn [step].
   - apply authz_sound; [exact Hpf|]. cbn in Hop. now apply Nat.leb_le.
   - split; reflexivity.
   - split; reflexivity.
   - cbn [snd fst]. split; [now apply poll_sound|].
-    cbn [gt_next]. destruct (poll cl st r cr dc now f); reflexivity.
+    cbn [gt_next]. destruct (poll g cl st r cr dc now f host' fwd'); reflexivity.
 Qed.
 
 Lemma check_run g cl : forallb client_ok cl = true -> prefix_free (g_charset g) = true ->
@@ -518,7 +545,7 @@ Section Traces.
   Proof.
     induction 1 as [|tr st o Hr IH].
     - constructor; try (intros ? []); intros; contradiction.
-    - destruct o as [r cr scopes now life rnd host fwd | uc sub | uc | r cr dc now f]; cbn [step].
+    - destruct o as [r cr scopes now life rnd host fwd | uc sub | uc | r cr dc now f host' fwd']; cbn [step].
       + unfold authz. destruct r.
         * destruct (prov_client cl cr) as [[id a]|e] eqn:Hp; cbn [fst snd];
             [|apply inv_quiet; [exact IH | discriminate | discriminate]].
@@ -542,16 +569,17 @@ End Traces.
 (* The property theorems over all histories. *)
 
 Lemma tokens_only_after_approval g cl tr st : reach g cl tr st ->
-  forall r cr dc now f sub client scopes idsub rf,
-  poll cl st r cr dc now f = RTokens sub client scopes idsub rf ->
+  forall r cr dc now f host fwd t,
+  poll g cl st r cr dc now f host fwd = RTokens t ->
   exists uc exp,
-    issued_ev tr dc uc (claimed cr) scopes exp /\ approved_ev tr uc sub /\
+    issued_ev tr dc uc (claimed cr) (t_scopes t) exp /\ approved_ev tr uc (t_sub t) /\
     ~ denied_ev tr uc /\ f = FNone.
 Proof.
-  intros Hr r cr dc now f sub client scopes idsub rf Hp.
+  intros Hr r cr dc now f host fwd t Hp.
   pose proof (reach_inv _ _ _ _ Hr) as [I1 I2 I3 I4 I5].
-  destruct (poll_tokens_inv _ _ _ _ _ _ _ _ _ _ _ _ Hp)
-    as [d [c [Hfd [Hfc [Hcl [-> [Hdone [Hden [-> [-> [-> [Hid Hpr]]]]]]]]]]]].
+  destruct (poll_tokens_inv _ _ _ _ _ _ _ _ _ _ _ Hp)
+    as [d [c [Hfd [Hfc [Hcl [Hdone [Hden [-> [Ht Hpr]]]]]]]]].
+  unfold tokens_for in Ht. inversion Ht; subst t. cbn [t_sub t_scopes].
   apply find_dev_some in Hfd as [Hin Hdc].
   exists (d_user d), (d_expires d). repeat split.
   - rewrite <- Hdc, <- Hcl. now apply I1.
@@ -560,24 +588,52 @@ Proof.
 Qed.
 
 Lemma only_to_initiator g cl tr st : reach g cl tr st ->
-  forall r cr dc now f sub client scopes idsub rf,
-  poll cl st r cr dc now f = RTokens sub client scopes idsub rf ->
-  client = claimed cr /\
-  (exists uc exp, issued_ev tr dc uc (claimed cr) scopes exp) /\
+  forall r cr dc now f host fwd t,
+  poll g cl st r cr dc now f host fwd = RTokens t ->
+  t_client t = claimed cr /\
+  (exists uc exp, issued_ev tr dc uc (claimed cr) (t_scopes t) exp) /\
   exists c, find_client cl (claimed cr) = Some c /\ proves_identity c cr = true.
 Proof.
-  intros Hr r cr dc now f sub client scopes idsub rf Hp.
-  destruct (tokens_only_after_approval _ _ _ _ Hr _ _ _ _ _ _ _ _ _ _ Hp) as [uc [ex [Hi _]]].
-  destruct (poll_tokens_inv _ _ _ _ _ _ _ _ _ _ _ _ Hp)
-    as [d [c [Hfd [Hfc [Hcl' [-> [Hdone [Hden [-> [-> [-> [Hid Hpr]]]]]]]]]]]].
-  split; [reflexivity|]. split; [eauto|]. exists c. split; [exact Hfc | exact Hpr].
+  intros Hr r cr dc now f host fwd t Hp.
+  destruct (tokens_only_after_approval _ _ _ _ Hr _ _ _ _ _ _ _ _ Hp) as [uc [ex [Hi _]]].
+  destruct (poll_tokens_inv _ _ _ _ _ _ _ _ _ _ _ Hp)
+    as [d [c [Hfd [Hfc [Hcl' [Hdone [Hden [-> [Ht Hpr]]]]]]]]].
+  unfold tokens_for in Ht. inversion Ht; subst t. cbn [t_client t_scopes] in *.
+  split; [exact Hcl'|]. split; [eauto|]. exists c. split; [exact Hfc | exact Hpr].
+Qed.
+
+(* "the issued tokens carry the approving user's subject and the requested
+   scopes": everything a token answer carries is determined by the issuance of
+   that device code, by its approval and by THIS token request - the scope of
+   the answer and the scopes recorded with the access token are the list asked
+   for at issuance, element by element (nothing dropped, added, reordered or
+   merged); the ID token exists iff openid was asked for and names the approving
+   subject; ID token and JWT access token name the issuer of this very request *)
+Lemma tokens_carry g cl tr st : reach g cl tr st ->
+  forall r cr dc now f host fwd t,
+  poll g cl st r cr dc now f host fwd = RTokens t ->
+  exists uc exp requested c,
+    issued_ev tr dc uc (claimed cr) requested exp /\ approved_ev tr uc (t_sub t) /\
+    find_client cl (claimed cr) = Some c /\
+    t_scopes t = requested /\ t_granted t = requested /\
+    (forall s, In s requested <-> In s (t_scopes t)) /\
+    t_id t = (if string_in "openid" requested then Some (t_sub t, request_issuer g host fwd) else None) /\
+    t_at_iss t = (if c_jwt c then Some (request_issuer g host fwd) else None) /\
+    t_refresh t = (string_in "offline_access" requested && c_refresh c).
+Proof.
+  intros Hr r cr dc now f host fwd t Hp.
+  destruct (tokens_only_after_approval _ _ _ _ Hr _ _ _ _ _ _ _ _ Hp) as [uc [ex [Hi [Ha _]]]].
+  destruct (poll_tokens_inv _ _ _ _ _ _ _ _ _ _ _ Hp)
+    as [d [c [Hfd [Hfc [Hcl' [Hdone [Hden [-> [Ht Hpr]]]]]]]]].
+  unfold tokens_for in Ht. inversion Ht; subst t. cbn [t_sub t_client t_scopes t_granted t_id t_at_iss t_refresh] in *.
+  exists uc, ex, (d_scopes d), c. repeat split; try assumption; try reflexivity; auto.
 Qed.
 
 Lemma poll_answers g cl tr st : reach g cl tr st ->
-  forall r cr dc now f c,
+  forall r cr dc now f host fwd c,
   find_client cl (claimed cr) = Some c -> canonical c cr = true -> c_dev c = true ->
   client_ok c = true -> dc <> "" ->
-  let x := poll cl st r cr dc now f in
+  let x := poll g cl st r cr dc now f host fwd in
   (f = FDeadline -> x = RErr "slow_down") /\
   (f = FNone ->
      ((forall uc cid sc ex, issued_ev tr dc uc cid sc ex -> cid <> c_id c) ->
@@ -586,13 +642,14 @@ Lemma poll_answers g cl tr st : reach g cl tr st ->
         (denied_ev tr (d_user d) -> x = RErr "access_denied") /\
         (~ denied_ev tr (d_user d) -> (exists sub, approved_ev tr (d_user d) sub) ->
            approved_ev tr (d_user d) (d_subject d) /\
-           exists idsub rf, x = RTokens (d_subject d) (c_id c) (d_scopes d) idsub rf) /\
+           exists t, x = RTokens t /\ t_sub t = d_subject d /\ t_client t = c_id c /\
+                     t_scopes t = d_scopes d /\ t_granted t = d_scopes d) /\
         (~ denied_ev tr (d_user d) -> (forall sub, ~ approved_ev tr (d_user d) sub) ->
            x = RErr (if (now >? d_expires d)%Z then "expired_token" else "authorization_pending")))).
 Proof.
-  intros Hr r cr dc now f c Hfc Hcan Hdev Hok Hdc x. subst x.
+  intros Hr r cr dc now f host fwd c Hfc Hcan Hdev Hok Hdc x. subst x.
   pose proof (reach_inv _ _ _ _ Hr) as [I1 I2 I3 I4 I5].
-  rewrite (poll_canonical _ _ _ _ _ _ _ _ Hfc Hcan Hdev Hok Hdc).
+  rewrite (poll_canonical g _ _ _ _ _ _ _ host fwd _ Hfc Hcan Hdev Hok Hdc).
   split; [intros ->; reflexivity|]. intros ->. unfold check_state, get_dev. split.
   - intro Hno. destruct (find_dev st dc) as [d|] eqn:Hfd; [|reflexivity].
     apply find_dev_some in Hfd as [Hin Hcode].
@@ -606,7 +663,7 @@ Proof.
       destruct (d_denied d) eqn:Hden; [exfalso; apply Hnd; now apply I3|].
       destruct (I5 _ _ Ha) as [_ Hall]. rewrite (Hall d Hin eq_refl).
       split; [apply I2; [exact Hin | now apply Hall]|].
-      unfold tokens_for. rewrite Hown. eauto.
+      unfold tokens_for. rewrite Hown. eexists. split; [reflexivity|]. cbn. repeat split; reflexivity.
     + intros Hnd Hna.
       destruct (d_denied d) eqn:Hden; [exfalso; apply Hnd; now apply I3|].
       destruct (d_done d) eqn:Hdone; [exfalso; eapply Hna; now apply I2|].
@@ -681,20 +738,20 @@ Qed.
 (* ---- non-vacuity: a history in which every promised answer occurs ---------- *)
 Definition ex_cfg := mkCfg (IStatic "https://op.example.com" "/oidc") (FormPath "/device") ["B"; "C"; "D"; "F"] 4 2 5%Z.
 Definition ex_clients :=
-  [mkClient "web" "s3cr3t" ABasic true true; mkClient "native" "" ANone true false].
+  [mkClient "web" "s3cr3t" ABasic true true false; mkClient "native" "" ANone true false true].
 Definition ex_web := mkCreds (Some ("web", "s3cr3t")) "" "".
 Definition ex_native := mkCreds None "native" "".
 Definition ex_rnd : list nat := [1;2;3;4;5;6;7;8;9;10;11;12;13;14;15;16; 0;1;2;3].
 Definition ex_dc := "AQIDBAUGBwgJCgsMDQ4PEA".
 Definition ex_ops :=
   [ OpAuthz RProvider ex_web ["openid"; "profile"] 1000%Z 300%Z ex_rnd "other.example" None;
-    OpPoll RLegacy ex_web ex_dc 2000%Z FNone;
-    OpPoll RProvider ex_native ex_dc 2000%Z FNone;
-    OpPoll RProvider ex_web ex_dc 2000%Z FDeadline;
+    OpPoll RLegacy ex_web ex_dc 2000%Z FNone "op.example.com" None;
+    OpPoll RProvider ex_native ex_dc 2000%Z FNone "op.example.com" None;
+    OpPoll RProvider ex_web ex_dc 2000%Z FDeadline "op.example.com" None;
     OpApprove "BC-DF" "alice";
-    OpPoll RLegacy ex_web ex_dc 3000%Z FNone;
+    OpPoll RLegacy ex_web ex_dc 3000%Z FNone "a.example" (Some "b.example");
     OpDeny "BC-DF";
-    OpPoll RProvider ex_web ex_dc 4000%Z FNone ].
+    OpPoll RProvider ex_web ex_dc 4000%Z FNone "op.example.com" None ].
 
 Example history_nonvacuous :
   wf (IHist ex_cfg ex_clients ex_ops) = true /\
@@ -702,19 +759,20 @@ Example history_nonvacuous :
   [ RDevice ex_dc "BC-DF" "https://op.example.com/device"
       "https://op.example.com/device?user_code=BC-DF" 300%Z 5%Z;
     RErr "authorization_pending"; RErr "access_denied"; RErr "slow_down"; RAck true;
-    RTokens "alice" "web" ["openid"; "profile"] (Some "alice") false;
+    RTokens (mkTokens "alice" "web" ["openid"; "profile"] ["openid"; "profile"]
+               (Some ("alice", "https://op.example.com/oidc")) None false);
     RAck true; RErr "access_denied" ].
 Proof. split; vm_compute; reflexivity. Qed.
 
 Example canonical_nonvacuous :
-  canonical (mkClient "web" "s3cr3t" ABasic true true) ex_web = true /\
-  canonical (mkClient "native" "" ANone true false) ex_native = true.
+  canonical (mkClient "web" "s3cr3t" ABasic true true false) ex_web = true /\
+  canonical (mkClient "native" "" ANone true false true) ex_native = true.
 Proof. split; reflexivity. Qed.
 
 Example expired_nonvacuous :
   run ex_cfg ex_clients []
     [ OpAuthz RLegacy ex_native ["openid"] 1000%Z (-300)%Z ex_rnd "op.example.com" None;
-      OpPoll RProvider ex_native ex_dc 2000%Z FNone ]
+      OpPoll RProvider ex_native ex_dc 2000%Z FNone "op.example.com" None ]
   = [ RDevice ex_dc "BC-DF" "https://op.example.com/device"
         "https://op.example.com/device?user_code=BC-DF" (-300)%Z 5%Z;
       RErr "expired_token" ].
@@ -734,3 +792,21 @@ Example dynamic_issuer_nonvacuous :
       RDevice "EA8ODQwLCgkIBwYFBAMCAQ" "FD-CB" "https://b.example:8443/device"
         "https://b.example:8443/device?user_code=FD-CB" 300%Z 5%Z ].
 Proof. split; vm_compute; reflexivity. Qed.
+
+(* repeated scopes (start, middle, end) and a request-derived issuer: the tokens
+   carry the list as requested, and ID token and JWT access token name the issuer
+   of the TOKEN request (b.example:8443), not the one the flow was started under *)
+Example repeated_scopes_nonvacuous :
+  let g := mkCfg (IForwarded false "/oidc") (FormPath "/device") ["B"; "C"; "D"; "F"] 4 2 5%Z in
+  let sc := ["openid"; "profile"; "openid"; "email"; "offline_access"; "email"] in
+  run g ex_clients []
+    [ OpAuthz RLegacy ex_native sc 1000%Z 300%Z ex_rnd "a.example" None;
+      OpApprove "BC-DF" "bob";
+      OpPoll RProvider ex_native ex_dc 2000%Z FNone "a.example" (Some "b.example:8443") ]
+  = [ RDevice ex_dc "BC-DF" "https://a.example/device" "https://a.example/device?user_code=BC-DF" 300%Z 5%Z;
+      RAck true;
+      RTokens (mkTokens "bob" "native" sc sc (Some ("bob", "https://b.example:8443/oidc"))
+                 (Some "https://b.example:8443/oidc") false) ] /\
+  same_scopes ["openid"; "profile"; "email"; "offline_access"] sc = true /\
+  same_scopes ["openid"; "profile"] sc = false.
+Proof. repeat split; vm_compute; reflexivity. Qed.
